@@ -14,9 +14,9 @@ import (
 
 // Attr is one node attribute of a case: kind in i, is, f, fs, s, ss, t.
 type Attr struct {
-	Name string          `json:"name"`
-	Kind string          `json:"kind"`
-	V    jsonRaw         `json:"v"`
+	Name string  `json:"name"`
+	Kind string  `json:"kind"`
+	V    jsonRaw `json:"v"`
 }
 
 type jsonRaw []byte
